@@ -9,6 +9,7 @@ git -C /repo worktree prune
 git -C /repo worktree add -q --detach $D/repo HEAD || exit 2
 ( cd $D/repo && git apply "$patch" ) || { echo "$name: patch does not apply"; git -C /repo worktree remove --force $D/repo; rm -rf $D; exit 2; }
 rsync -a --exclude '.git' --exclude 'evidence/run-*' --exclude 'evidence/last-seeded-replays' /verif/ $D/verif/
+rm -rf $D/verif/evidence/replays/* /tmp/pv/replays/$name   # replays of earlier runs are not this run's
 sed -i "s#path = \"/repo\"#path = \"$D/repo\"#" $D/verif/harness/Cargo.toml
 for p in "$@"; do
   ( cd $D/verif && VERIF_REPO=$D/repo timeout 3000 ./vcheck $p 2>&1 | grep -E "VIOLATION|KNOWN|tier=" | sed "s#^#$name: #" )
